@@ -525,7 +525,7 @@ func checkInput(oc *fw.Outcome, in input, rows []row) {
 				for _, opt := range []string{"AlignTrailingComment", "SortDeclarationProperty"} {
 					c2 := *rw.Conf
 					on := map[string]bool{"AlignTrailingComment": c2.AlignTrailingComment, "SortDeclarationProperty": c2.SortDeclarationProperty}[opt]
-					if !on || k14 == "multiline-longstring/idem" {
+					if !on {
 						continue
 					}
 					flip(&c2, opt)
